@@ -6,6 +6,8 @@ from typing import Any, Dict, List
 
 from harness import chem, core, reactlib
 
+# look-alikes: same skeleton, different charge / hydrogen count
+LOOKALIKES = ["CC(=O)O.CO", "CC(=O)[O-].CO", "CC(=O)O.C[O-]", "CBr.[OH-]", "CBr.O", "CC=O.CN", "CC=O.C[NH3+]", "CC=O.C[NH-]", "CCO.CC(=O)O", "CC[O-].CC(=O)O"]
 SUBSTRATES = ["CC=O.CC=O", "CCC=O.CC=O", "CC=O.CC(C)=O", "CC(=O)O.CO", "CCC(=O)O.CO", "CC(=O)O.CCO", "CC=O.CN", "CCC=O.CN",
               "C=CC=C.C=C", "C=CC(C)=C.C=C", "CBr.[OH-]", "CCBr.[OH-]", "C1CO1.O", "CC1CO1.O", "CC(=O)OC.CCO", "C=CC(C)=O.CS"]
 
@@ -57,15 +59,23 @@ def same_case(inp):
         b = BalanceReactionCheck(n_jobs=4).dicts_balance_check(data, rsmi_column="reactions")
         return {"kind": "same", "what": inp["what"], "a": f(a), "b": f(b)}
     if inp["what"] == "network-expansion":
-        from synkit.CRN.DAG.syncrn import build_syncrn_from_smarts
-        kw = dict(repeats=inp["repeats"], explicit_h=False, implicit_temp=True)
-        g1 = build_syncrn_from_smarts(inp["rules"], inp["seeds"], parallel=False, **kw)
-        g2 = build_syncrn_from_smarts(inp["rules"], inp["seeds"], parallel=True, max_workers=4, **kw)
+        from synkit.CRN.DAG.syncrn import SynCRN
 
-        def proj(g):
-            ns = sorted(str(d.get("smiles", d.get("label", n))) + "|" + str(d.get("kind", "")) for n, d in g.nodes(data=True))
-            return [ns, g.number_of_nodes(), g.number_of_edges()]
-        return {"kind": "same", "what": inp["what"], "a": proj(g1), "b": proj(g2)}
+        def canon(g):
+            species = sorted(str(d.get("smiles_nomap")) for _, d in g.nodes(data=True) if d.get("kind") == "species")
+            ev = []
+            for n, d in g.nodes(data=True):
+                if d.get("kind") != "rxn":
+                    continue
+                r = sorted(str(g.nodes[u].get("smiles_nomap")) for u in g.predecessors(n))
+                p = sorted(str(g.nodes[v].get("smiles_nomap")) for v in g.successors(n))
+                ev.append([int(d.get("step", 0)), int(d.get("rule_index", 0)), r, p])
+            return [species, sorted(ev)]
+        a = canon(SynCRN(rules=list(inp["rules"]), repeats=inp["repeats"]).build(list(inp["seeds"]), parallel=False))
+        b = canon(SynCRN(rules=list(inp["rules"]), repeats=inp["repeats"]).build(list(inp["seeds"]), parallel=True, max_workers=inp["workers"]))
+        if not a[1]:
+            return {"_skip": "expansion-produced-no-reaction"}
+        return {"kind": "same", "what": inp["what"] + "(workers=%d)" % inp["workers"], "a": a, "b": b}
     raise core.MachineryError(inp["what"])
 
 
@@ -97,7 +107,7 @@ def batches(rng, n_batches, size, quick):
     tb = [t["rsmi"] for t in reactlib.textbook() if "explicit" not in t["name"]]
     out = []
     for _ in range(n_batches):
-        pool = rng.sample(SUBSTRATES, rng.randint(3, 8))
+        pool = rng.sample(SUBSTRATES, rng.randint(3, 6)) + rng.sample(LOOKALIKES, rng.randint(2, 5))
         entries = [rng.choice(pool) for _ in range(size)]          # many repeats of few look-alike substrates: addresses get recycled
         cfgs = [{"cache": True, "maxsize": 32768, "jobs": 1}, {"cache": False, "maxsize": 32768, "jobs": 1},
                 {"cache": True, "maxsize": rng.choice([1, 2, 3]), "jobs": 1}, {"cache": True, "maxsize": 32768, "jobs": rng.choice([2, 3, 4] if quick else [2, 4, 8])}]
@@ -129,7 +139,15 @@ def run(ctx: core.Ctx) -> None:
         bal = [{"reactions": s} for s in sample] + [{"reactions": s.split(">>")[0] + ">>" + s.split(">>")[1].split(".")[0]} for s in sample[:8]]
         same.append({"what": "balance-check", "data": bal})
     tb = {t["name"]: t["rsmi"] for t in reactlib.textbook()}
-    same.append({"what": "network-expansion", "rules": [tb["aldol-addition"], tb["esterification"]], "seeds": ["CC=O", "CC(C)=O", "CC(=O)O", "CO"], "repeats": 2})
+    nets = [([tb["esterification-explicit-H"], tb["imine-formation-explicit-H"]], ["CCO", "CC(=O)O", "CO", "CN", "CC=O", "OCCO"]),
+            ([tb["imine-formation-explicit-H"], tb["esterification-explicit-H"], tb["aldol-condensation-explicit-H"]], ["CC=O", "CN", "CC(=O)O", "CO", "NCCO"]),
+            ([tb["imine-formation-explicit-H"]], ["CC=O", "CN", "NCCN", "CCC=O", "O=CC=O"]),
+            ([tb["esterification-explicit-H"], tb["hbr-addition-explicit-H"]], ["CCO", "CC(=O)O", "CO", "OCCO", "CC=CC", "Br", "CCC(=O)O"])]
+    for rules, seeds in nets:
+        seeds = list(seeds)
+        rng.shuffle(seeds)
+        for w in ((2, 3, 4, 7) if q else (2, 3, 4, 5, 6, 7, 8)):
+            same.append({"what": "network-expansion", "rules": rules, "seeds": seeds, "repeats": 2, "workers": w})
     core.run_stage(ctx, S("serial-versus-parallel", same_case, same))
 
 
